@@ -207,7 +207,38 @@ def native_bound(vals, np, om):
         return Fl(v)
     kw = dict(self=Autoscaler(), val=cv(vals['val']), adder=cv(vals['adder']), scaler=cv(vals['scaler']),
               size=int(vals['size']), is_lower=bool(vals['is_lower']))
+    if vals.get('__int_dtype__') and hasattr(kw['val'], 'dtype'):
+        # bounds are often written as integer arrays (np.array([1, 3, 5])): the metadata keeps that dtype
+        kw['val'] = kw['val'].astype(int)
     return kw, dict(n=kw['size'])
+
+
+def bound_sampler(rng):
+    n = rng.choice([1, 2, 3])
+    fr = lambda a, b=8: {'__frac__': [a, b]}
+
+    def arr(vs):
+        return {'__arr__': vs, 'shape': [n], 'dtype': 'real'}
+    int_dtype = rng.random() < 0.5
+    kind = rng.choice(['none', 'scalar', 'array', 'array', 'array', 'array'])
+    if kind == 'none':
+        val = None
+    elif kind == 'scalar':
+        val = fr(rng.choice([-24, -8, 0, 8, 40]))
+    else:
+        val = arr([fr(8 * rng.choice([-3, -1, 0, 1, 3, 5])) if int_dtype else fr(rng.choice([-24, -5, 0, 3, 8, 41])) for _ in range(n)])
+
+    def sc(neutral):
+        k = rng.choice(['none', 'scalar', 'array'])
+        if k == 'none':
+            return None
+        if k == 'scalar':
+            return fr(rng.choice([-12, 1, 3, 5, 20]))
+        return arr([fr(rng.choice([-12, 1, 3, 5, 20])) for _ in range(n)])
+    out = {'self': {'__obj__': 'Autoscaler', 'id': 0, 'attrs': {}}, 'val': val, 'adder': sc(0), 'scaler': sc(1), 'size': n, 'is_lower': rng.random() < 0.5}
+    if int_dtype and kind == 'array':
+        out['__int_dtype__'] = True
+    return out
 
 
 V = '(val if is_scalar(val) else val[i])'
@@ -222,7 +253,7 @@ contract(AS + '::Autoscaler._scale_bound', ['C20', 'C21'],
                   'implies(val is not None, all(implies(not %s, result[i] == (%s + %s) * %s) for i in range(n)))' % (
                       UNB, V, '(0 if adder is None else (adder if is_scalar(adder) else adder[i]))',
                       '(1 if scaler is None else (scaler if is_scalar(scaler) else scaler[i]))')],
-         modifies=[], native=native_bound,
+         modifies=[], native=native_bound, sampler=bound_sampler,
          canaries=[('sentinel not restored', ('val_arr[inf_mask] = -INF_BOUND if is_lower else INF_BOUND', 'pass'), 'post'),
                    ('adder skipped', ('if adder is not None:', 'if adder is not None and False:'), 'post')])
 REGISTRY[AS + '::Autoscaler._scale_bound'][0].returns = Arr('n')     # a fresh array of length n (callers are verified against this contract)
